@@ -38,7 +38,7 @@ PLANS['C01'] = {
              'and compared with an expected dump derived from the abstract spec and the property statement; the same bytes are also decoded through a reader that is not a slice (a few bytes per call / a small BufReader / '
              'two halves chained) and must give the same DOM; one case in four also compares the other public entry points (to_writer, Deserializer::new().deserialize, from_str, *_default) with the ones they abbreviate; one tree in four contains 2-4 instances of one class sharing a Content-object / Ref / SharedString column; one in five of the others contains 2-5 instances of one class mixing both spellings of a property / the other spelling only / the canonical one only / neither; strings include CR-only, NBSP and U+2028 ones; unknown property names include padded and case-changed variants of reserved and known names; tag lists hold empty tags one time in six (lost on read: listed finding); every fourth shard runs with a logger that accepts and formats trace-level records (log statements of the libraries are only evaluated then); one case in fifty is a SCALE tree '
              '(63-2049, rarely 16384-17000, siblings or instances of one class; chains 300 deep; hundreds of distinct SharedStrings / classes / properties; values past 64 KiB, rarely 5 MiB); '
-             'non-trivial = >=2 written instances and >=1 property; distinct = digest of the expected dump'),
+             'non-trivial = >=2 written instances and >=1 property; distinct = digest of the expected dump Spelling groups also use legacy ContentId spellings that migrate (Image / MeshId / TextureID ...) next to explicit Content values incl. an empty uri; float pools hold +-999999999 (what rbx_dom_lua writes for math.huge); string pools hold the asset-URL spellings (http://www.roblox.com/asset/?id=N, rbxassetid://N ...).'),
     'floor': {'quick': 3000, 'thorough': 100000},
     'assumptions': ['generator reach (see coverage.observed)', 'oracle in harness/src/expect.rs + dbwalk.rs (independent walk of rbx_reflection types)',
                     'rotation bases derived from docs/binary.md table (harness/src/rot.rs)'],
@@ -176,7 +176,7 @@ PLANS['C04'] = {
              'per-chunk compression, chunk order, class ids, referent numbering, PRNT row order, META/unknown chunks, service-format INST chunks, '
              'CFrame id vs full matrix; plus PROP chunks without type byte / with unknown type ids, narrower numerics for Int64/Float64 properties, '
              'and one file per Int64/Float64 descriptor of the database (exhaustive); rbx_binary::from_reader must return exactly the DOM described; '
-             'non-trivial = >=2 instances; distinct = hash of the file The SSTR hash field carries the real MD5, zeros, one placeholder for every entry, random values or equal values for pairs of entries (the document says readers do not use it).'),
+             'non-trivial = >=2 instances; distinct = hash of the file The SSTR hash field carries the real MD5, zeros, one placeholder for every entry, random values or equal values for pairs of entries (the document says readers do not use it). The legacy-only files built from the C15 cases also come with a PROP chunk for the migration TARGET that must be skipped (ends after its name / unknown type id), before and after the legacy chunk.'),
     'floor': {'quick': 1000, 'thorough': 50000},
     'assumptions': ['refbin.py encoder + errata E1/E2 resolutions (DESIGN.md 2.4)', 'harness oracle for the logical DOMs'],
     'run': _c04,
@@ -225,7 +225,7 @@ def _domops(pid):
 _DOM_RULE = ('histories of insert / destroy / transfer_within / transfer / clone_within / clone_into_external / clone_multiple_into_external over 1-3 real WeakDoms, '
              'arguments drawn within the documented preconditions (moving an instance under its own descendant is excluded: no tree can represent it; the list given to clone_multiple_into_external may repeat an '
              'instance or name an instance together with a descendant - nothing documented forbids it - and then any of the copies counts as the corresponding copy of a Ref target); '
-             'nodes carry 0-2 outward Ref properties, a self Ref, dangling Refs, pooled UniqueIds; one inserted builder in six is created on a freshly started thread, through any of the public constructors (new / with_property_capacity / empty + with_class / set_class); builders are also left unnamed (new(class) names the instance after that class), re-classed after new (with_class changes the class only), made by empty() or named by set_name; half of the random histories MIRROR referents: all DOM roots are built with one chosen referent and one inserted subtree root in four gets the referent of a node of another DOM (a Ref designates whoever holds its value in the DOM at hand); one history in forty opens with a size scenario (two folders of 65-130 children joined by 65-130 distinct Refs, cloned within and across DOMs; or 460 id-carrying children, a parentless clone and a mass destroy); now and then a DOM goes through '
+             'nodes carry 0-2 outward Ref properties, a self Ref, dangling Refs, pooled UniqueIds; one inserted builder in six is created on a freshly started thread, through any of the public constructors (new / with_property_capacity / empty + with_class / set_class); builders are also left unnamed (new(class) names the instance after that class), re-classed after new (with_class changes the class only), made by empty() or named by set_name; one node in six carries a Bool property named Archivable (cloning copies it like anything else); ids are compared field by field by the monitor (the type's == / Hash are code under test) and the pool holds ids that share one negative random part; half of the random histories MIRROR referents: all DOM roots are built with one chosen referent and one inserted subtree root in four gets the referent of a node of another DOM (a Ref designates whoever holds its value in the DOM at hand); one history in forty opens with a size scenario (two folders of 65-130 children joined by 65-130 distinct Refs, cloned within and across DOMs; or 460 id-carrying children, a parentless clone and a mass destroy); now and then a DOM goes through '
              'into_raw + from_raw + reserve (nothing observable may change; the rebuilt id bookkeeping is checked through the hook); '
              'random histories of 20-400 operations (few live nodes, many operations) plus the exhaustive enumeration of every history in the small scopes '
              'listed under exhaustive_scopes (all valid argument choices at every step); after EVERY step each DOM is walked through the public API and compared '
@@ -374,7 +374,7 @@ PLANS['C14'] = {
              '(c) blobs built by the independent encoder (entry order shuffled, axis-aligned rotations in long form, non-0/1 Bool bytes) decode to the map they describe; '
              '(d) a file holding three instances of one class (a longer map, the map under test, an empty map): every PROP string in the binary file (refbin.py) and every base64 payload in the XML file (refxml.py) '
              'equals the to_writer bytes of that instance; '
-             'non-trivial = map with >=2 entries; distinct = digest of the map / blob'),
+             'non-trivial = map with >=2 entries; distinct = digest of the map / blob Every blob is also decoded through readers that are not slices: a few bytes per call, and ErrorKind::Interrupted on the very first call / every other call / every third call.'),
     'floor': {'quick': 5000, 'thorough': 300000},
     'assumptions': ['refattr.py / refbin.py / refxml.py written from the documents', 'rotation bases from the docs table (rot.rs)'],
     'run': _c14,
@@ -422,7 +422,7 @@ PLANS['C13'] = {
              'carry blobs of every length 0..80 and hostile contents); '
              'fault enumeration: every strict prefix of each valid base file must be an error; every mutated/valid input is re-read through 1-byte, short-read and Interrupted readers and must give the same result; '
              'a sink failing at every output offset must make the writers return Err (or identical bytes when only interrupted). '
-             'Oracles: outcome in {Ok, Err}, largest single allocation <= max(16 MiB, 1024 x input), no watchdog timeout; non-trivial = every input; distinct = hash of the input The structured corpus also holds XML documents with every child-element vocabulary docs/xml.md mentions for composite values (current, historical binary / hash, unknown) in typed positions, each with all of its byte prefixes. After three confirmed hangs further timeouts are counted without the 3x re-run and a shard stops after five of them.'),
+             'Oracles: outcome in {Ok, Err}, largest single allocation <= max(16 MiB, 1024 x input), no watchdog timeout; non-trivial = every input; distinct = hash of the input The structured corpus also holds XML documents with every child-element vocabulary docs/xml.md mentions for composite values (current, historical binary / hash, unknown) in typed positions, each with all of its byte prefixes. After three confirmed hangs further timeouts are counted without the 3x re-run and a shard stops after five of them. Zstandard frames built by hand whose forged content size AGREES with the forged uncompressed length of the chunk header (64 MiB, 1 GiB, 3 GiB, 8-byte field) are part of the structured corpus.'),
     'floor': {'quick': 20000, 'thorough': 400000},
     'profiles': {'quick': [], 'thorough': ['dbg']},
     'assumptions': ['the worker runs each case on an 8 MiB stack', 'CPU/hang: 30 s wall-clock watchdog per case whose firing is reported as unconfirmed (inconclusive note), not as a violation'],
@@ -441,7 +441,7 @@ PLANS['C08'] = {
              'random spelling (canonical / alias / legacy migrating: Size|size, Color|Color3uint8|BrickColor|brickColor, Font|FontFace, IgnoreGuiInset|ScreenInsets, Image|ImageContent, MeshId|MeshContent ...); '
              'every instance is first round-tripped alone, then the group in ALL n! sibling orders (n<=4; 24 random orders above): every order must serialize, every instance must show exactly what it shows alone, '
              'gaps must hold the database default of the class (independent walk) or, if there is none, never a donor value; outcome classes must not depend on order; '
-             'non-trivial = group using >=2 distinct spellings; distinct = digest of the group description'),
+             'non-trivial = group using >=2 distinct spellings; distinct = digest of the group description Service classes (Lighting, Workspace, SoundService) are in the class pool: two copies of a service obey the same column rules.'),
     'floor': {'quick': 2000, 'thorough': 100000},
     'exhaustive': {},
     'assumptions': ['differential oracle: alone vs in-group (so a defect that changes both identically is C01/C15 territory)', 'database defaults via dbwalk.rs'],
@@ -496,7 +496,7 @@ PLANS['C07'] = {
              'property insertion order, reversed order + capacity, incremental inserts, flat insert + transfer_within) and serialized as binary x {lz4,none,zstd} and XML: all outputs byte-identical; '
              'the whole workload runs in P separate processes (other hash seeds; every other one runs the cases in the opposite order, so state kept between calls differs too) and their (case, format) -> output hashes are joined offline and must agree; '
              'one case in eight uses a class for which the database records no defaults (the writer must invent the gap value); one in twelve gives an instance an unknown THIRD spelling between two database names that differ only in letter case (Humanoid MaxHealth / maxHealth ...; found by walking the database); fault injection: after the first output of a case, saves are made to FAIL (sink refusing after k bytes, a tree the writer rejects) and the next save of the same tree must give the same bytes; '
-             'fixed point: b2 = save(load(b1)), b3 = save(load(b2)) must be byte-identical; non-trivial = tree with >=3 nodes or >=2 properties; distinct = digest of the tree shape'),
+             'fixed point: b2 = save(load(b1)), b3 = save(load(b2)) must be byte-identical; non-trivial = tree with >=3 nodes or >=2 properties; distinct = digest of the tree shape Multi-spelling trees include the two canonical Sound / MaterialService properties that share one serialized name.'),
     'floor': {'quick': 1500, 'thorough': 30000},
     'assumptions': ['process-level hash-seed diversity comes from ahash runtime keys: P processes sample P seeds, not all'],
     'run': _c07,
@@ -522,7 +522,7 @@ PLANS['C16'] = {
              'with the C01/C02 oracle; for EACH class a donor instance sets every default-carrying property to another value and a bare instance next to it must come back with the default visible on that class (nearest class wins); then EACH (class, own descriptor name) goes once through both writers and, where written, both readers (lookup paths must not panic; own output must be readable); '
              'the Lua-side copy rbx_dom_lua/src/database.json is cross-checked (version, classes, property sets, kinds); a modified copy of the database (one more serializes-as pair with a default) is handed to both codecs '
              'through their public options, and the bundled database is sent through the encodings rbx_reflector writes (MessagePack, human-readable MessagePack; JSON written and counted) and back with every class / descriptor / default / enum compared; the modified copy goes '
-             'in both chain orders x all compression types / property behaviours and must be the database actually used (wire name, name on the way back, default, identical output for both orders). non-trivial = each class default instance per format; distinct = class x format Hoisted targets: for each migrating property a copy of the database in which the migration target (with its aliases and default) is declared by the superclass instead - coherent, as a regenerated database may be - must make both codecs produce what the bundled database produces.'),
+             'in both chain orders x all compression types / property behaviours and must be the database actually used (wire name, name on the way back, default, identical output for both orders). non-trivial = each class default instance per format; distinct = class x format Hoisted targets: for each migrating property a copy of the database in which the migration target (with its aliases and default) is declared by the superclass instead - coherent, as a regenerated database may be - must make both codecs produce what the bundled database produces. Added migration: a copy of the database in which Folder gains a legacy ContentId property migrating to a new Content property (both name orders) - legacy alone migrates, an explicit new value wins, in both codecs and insertion orders. Studio-style ContentId: every ContentId descriptor is read from a Content element holding null / url and must come back with the declared type.'),
     'floor': {'quick': 15000, 'thorough': 15000},
     'exhaustive': {'quick': True, 'thorough': True},
     'assumptions': ['the exhaustive walk covers the bundled database; a regenerated database is covered by re-running the same check (the codecs\' handling of a caller-supplied database is exercised with one modified copy)', 'two canonical descriptors sharing a wire name are reported as informational (see known findings of C01/C03)'],
@@ -589,7 +589,7 @@ PLANS['C15'] = {
              'path w-bin / w-xml: DOM with the legacy name through the real writer and reader; path r-bin / r-xml: files that contain the legacy PROP chunk / element (built by refbin.py / plain text, both '
              'chunk / element orders, and once more behind another class that carries the target property explicitly) through the real reader. On the write paths the instance under test stands in four positions of one file (alone; first and second child of a same-class parent that carries both '
              'spellings; first child of a parent carrying only the legacy one) and must decode identically in all of them. All four paths must produce the same new canonical property with equal value, never the legacy name, the explicit value must win, and no path may fail. '
-             'non-trivial = every case; distinct = (class, legacy property, value, presence) Each case also runs with the explicit new value EXACTLY EQUAL to the database default of the new property.'),
+             'non-trivial = every case; distinct = (class, legacy property, value, presence) Each case also runs with the explicit new value EXACTLY EQUAL to the database default of the new property. The added-migration database leg of C16 runs here too (a migration the bundled database does not know).'),
     'floor': {'quick': 300, 'thorough': 3000},
     'exhaustive': {'thorough': True},
     'assumptions': ['the four paths are compared with each other (differential): a wrong mapping made identically on all four is not visible here'],
@@ -655,7 +655,7 @@ PLANS['C05'] = {
              'dictionary; decoded values must equal the statement-derived expectation (an independent parser normalises line ends, so a raw CR in text shows here). '
              'reader direction: logical DOMs are rendered by refxml.encode varying declaration, xmlns attributes, Meta/External, RBX-uuid referents, property order, whitespace, forward refs, ProtectedString, '
              'wrapped base64, alternative float spellings, CDATA/escapes/character references, comments, FF colour byte, optional CachedFaceId; rbx_xml::from_reader must return exactly that DOM. '
-             'non-trivial = document with >=2 instances; distinct = hash of the document Referent styles of the reference encoder include LOOKALIKES (strings that differ only in padding, letter case or leading zeros: different referents, compared verbatim).'),
+             'non-trivial = document with >=2 instances; distinct = hash of the document Referent styles of the reference encoder include LOOKALIKES (strings that differ only in padding, letter case or leading zeros: different referents, compared verbatim). The second document of each case uses upper-case hex digits in UniqueIds and the pre-645 Content element for ContentId values, an empty database-declared ContentId the way Studio writes it (Content holding null).'),
     'floor': {'quick': 2000, 'thorough': 60000},
     'assumptions': ['refxml.py / refattr.py written from the documents; Python\'s expat as the independent XML parser', 'BrickColor values are rendered as <int> in the reader direction'],
     'run': _c05,
